@@ -490,9 +490,17 @@ func (c *Ctx) scannerSummary(cp *ana.Prog, f *ssa.Function) string {
 			if !ana.Guarded(in, ta) || restoreCall(cp, site) {
 				return
 			}
-			if !seen[d.Name] {
-				seen[d.Name] = true
-				ctrs = append(ctrs, d.Name)
+			// which decoding successes the advance depends on (a payload that does not decode is not an event)
+			tag := d.Name
+			for _, dec := range []struct{ name, label string }{{"Atoi", "payload-number"}, {"ValidateAndComplete", "command-valid"}, {"Unmarshal", "payload-json"}} {
+				dn := dec.name
+				if ana.Guarded(in, ana.AtomErrNil(func(call *ssa.Call, dd ana.CalleeDesc) bool { return dd.Name == dn })) {
+					tag += "[" + dec.label + "]"
+				}
+			}
+			if !seen[tag] {
+				seen[tag] = true
+				ctrs = append(ctrs, tag)
 			}
 		})
 		// address predicates guarding the counted branch
